@@ -11,6 +11,7 @@ if grep -nE '(^|[^A-Za-z_])(Admitted|admit|Axiom|Axioms|Parameter|Parameters|Con
    | grep -vE '^\S+:\s*[0-9]+:\s*\(\*' | grep -vE 'Section|End ' ; then
   echo "SETUP: forbidden vernacular found (see lines above)"; exit 1
 fi
+mkdir -p build
 cd coq
 coq_makefile -f _CoqProject -o Makefile > /dev/null || exit 1
 timeout 3000 make -k -j"$J" > ../build/make.log 2>&1
